@@ -32,13 +32,23 @@ Lemma ok_parts :
      | None => forall ty, In ty (t_all T) -> In ty (row_of T k)
      end).
 Proof.
-  unfold tables_ok in Hok. repeat (apply andb_true_iff in Hok as [Hok ?]).
+  unfold tables_ok in Hok.
+  apply andb_true_iff in Hok as [Hok Hta].
+  apply andb_true_iff in Hok as [Hok Hanyrow].
+  apply andb_true_iff in Hok as [Hok Hany].
+  apply andb_true_iff in Hok as [Hok Hnone].
+  apply andb_true_iff in Hok as [Hok Hnil].
+  apply andb_true_iff in Hok as [Hok Hnot].
+  apply andb_true_iff in Hok as [Hok Hbind].
+  apply andb_true_iff in Hok as [Hok Hor].
+  apply andb_true_iff in Hok as [_ Hrows].
+  rewrite forallb_forall in Hrows, Hta.
   repeat split; try assumption.
-  - rewrite forallb_forall in Hok. apply Hok in H7. apply andb_true_iff in H7 as [H7 _]. apply mem_In. exact H7.
-  - rewrite forallb_forall in Hok. apply Hok in H7. apply andb_true_iff in H7 as [_ H7]. exact H7.
+  - apply Hrows in H. apply andb_true_iff in H as [H _]. apply mem_In. exact H.
+  - apply Hrows in H. apply andb_true_iff in H as [_ H]. exact H.
   - intros ty Hty. eapply incl_b_In; eassumption.
-  - rewrite forallb_forall in H. apply H in H7. apply andb_true_iff in H7 as [H7 _]. exact H7.
-  - rewrite forallb_forall in H. apply H in H7. apply andb_true_iff in H7 as [_ H7].
+  - apply Hta in H. apply andb_true_iff in H as [H _]. exact H.
+  - apply Hta in H. apply andb_true_iff in H as [_ H].
     destruct (ta_pre k PAny); intros ty Hty; eapply incl_b_In; eassumption.
 Qed.
 
